@@ -910,6 +910,25 @@ theorem scanMsg_sched {P : Params} {d : Disk} {g : Ghost} (h : DiskInv P d g)
     | none => simp [scanMsg, hm] at ho
     | some f => rfl
 
+/-- A step that only forgets the in-memory slot of the id (`pc := .fin`, nothing else changes): the start-up scan or
+`openMessage` met a transient fault. -/
+theorem inv_forget {P : Params} {s s' : St} (hi : Inv P s) (hs : s' = { s with pc := .fin }) : Inv P s' := by
+  subst hs; exact ⟨hi.disk, by simp [PcInv]⟩
+
+theorem step_scanFault {P : Params} {s s' : St} {w : FaultAt} (hs : step? P s (.scanFault w) = some s') :
+    s.pc = .down ∧ scanReaches P.codec s.disk w = true ∧ s' = { s with pc := .fin } := by
+  cases hpc : s.pc <;> simp [step?, hpc] at hs
+  exact ⟨rfl, hs.1, hs.2.symm⟩
+
+theorem step_openFault {P : Params} {s s' : St} {w : FaultAt} (hs : step? P s (.openFault w) = some s') :
+    s.pc = .sched none ∧ openReaches P.codec s.disk w = true ∧ s' = { s with pc := .fin } := by
+  cases hpc : s.pc with
+  | sched mem =>
+    cases mem with
+    | none => simp [step?, hpc] at hs; exact ⟨rfl, hs.1, hs.2.symm⟩
+    | some m => simp [step?, hpc] at hs
+  | _ => simp [step?, hpc] at hs
+
 theorem inv_restart {P : Params} {s s' : St} (hi : Inv P s) (hs : step? P s .restart = some s') : Inv P s' := by
   cases hpc : s.pc <;> simp [step?, hpc] at hs
   cases ho : scanMsg P.codec s.disk with
@@ -936,6 +955,8 @@ theorem inv_step {P : Params} {s s' : St} (c : Choice) (hi : Inv P s) (hs : step
   | crash keep => exact inv_crash hi hs
   | tornCrash n keep => exact inv_tornCrash hi hs
   | restart => exact inv_restart hi hs
+  | scanFault w => exact inv_forget hi (step_scanFault hs).2.2
+  | openFault w => exact inv_forget hi (step_openFault hs).2.2
 
 theorem inv_reach {P : Params} {s : St} (h : Reach P s) : Inv P s := by
   induction h with
@@ -1073,6 +1094,7 @@ theorem aborted_sticky {P : Params} {s s' : St} (c : Choice) (hi : Inv P s) (hab
   · cases c <;> simp [step?, hpc] at hs
     · subst hs; exact ⟨hab, rfl⟩
     · simp [scanMsg, hm] at hs; subst hs; exact ⟨hab, rfl⟩
+    · obtain ⟨_, hs⟩ := hs; subst hs; exact ⟨hab, rfl⟩
 
 /-- **An aborted transaction is never delivered.**  Once `Abort` has returned, no delivery attempt
 for the message was ever begun, recovery finds nothing to schedule, … -/
@@ -1382,6 +1404,10 @@ theorem acct_step {P : Params} {s s' : St} (c : Choice) (hi : Inv P s) (ha : Acc
     simp [step?] at hs; subst hs; apply acct_keep ha <;> (try rfl); left; rfl
   | tornCrash n keep => exact acct_tornCrash ha hs
   | restart => exact acct_restart ha hs
+  | scanFault w =>
+    have h := (step_scanFault hs).2.2; subst h; apply acct_keep ha <;> (try rfl); left; rfl
+  | openFault w =>
+    have h := (step_openFault hs).2.2; subst h; apply acct_keep ha <;> (try rfl); left; rfl
 
 theorem acct_reach {P : Params} {s : St} (h : Reach P s) : AcctInv s := by
   induction h with
@@ -1742,6 +1768,8 @@ theorem C02_only_dispatch_takes_slot (P : Params) (s t : St) (c : Choice) (hs : 
   | restart =>
     cases hpc : s.pc <;> simp [step?, hpc] at hs
     split at hs <;> (cases hs; simp [Pc.holdsSlot] at ht)
+  | scanFault w => have h := (step_scanFault hs).2.2; subst h; simp [Pc.holdsSlot] at ht
+  | openFault w => have h := (step_openFault hs).2.2; subst h; simp [Pc.holdsSlot] at ht
 
 theorem busy_cons (σ : Nat → St) (a : Nat) (l : List Nat) :
     busy σ (a :: l) = busy σ l + (if (σ a).pc.holdsSlot = true then 1 else 0) := by
@@ -2079,5 +2107,119 @@ example : Reach P0 ((runChoices P0 {} demoTorn).get demoTorn_runs) :=
 
 /-- The codec law is satisfiable. -/
 theorem C02_codec_nonvacuous (m : SMeta) : listCodec.parse (listCodec.ser m) = some m := listCodec.rt m
+
+
+/-! ## round 8: the stages of a delivery attempt (`deliverErrs` = `Queue.deliver`), transient faults of the read-only calls -/
+
+/-- A recipient counts as delivered only if the target's `Commit` succeeded (and `AddRcpt` and the body stage
+succeeded for it): the message is effective at the target only then — for a plain target and for one that
+implements `PartialDelivery` alike. -/
+theorem C02_delivered_only_if_committed (m : SMeta) (sc : Staged) (r : Addr)
+    (h : r ∈ delivered m (deliverErrs m.to sc)) :
+    sc.commit = none ∧ sc.add r = none ∧ sc.afterBody r = none := by
+  simp only [delivered, List.mem_filter, Option.isNone_iff_eq_none] at h
+  obtain ⟨hr, he⟩ := h
+  have hadd : ∀ (x : Option Cls), x.isSome = false → x = none := by intro x; cases x <;> simp
+  unfold deliverErrs at he
+  split at he
+  · rename_i hemp
+    have hm : r ∈ m.to.filter (fun r => (sc.add r).isNone) := by simp [List.mem_filter, hr, he]
+    rw [List.isEmpty_iff] at hemp
+    rw [hemp] at hm; cases hm
+  · split at he
+    · rename_i hemp hall
+      have hm : r ∈ m.to.filter (fun r => (sc.add r).isNone) := by
+        have : sc.add r = none := by
+          cases h1 : sc.add r with
+          | none => rfl
+          | some c => simp [Staged.afterBody, h1] at he
+        simp [List.mem_filter, hr, this]
+      have := List.all_eq_true.mp hall r hm
+      rw [he] at this; cases this
+    · cases hc : sc.commit with
+      | none =>
+        simp only [hc] at he
+        refine ⟨rfl, ?_, he⟩
+        cases h1 : sc.add r with
+        | none => rfl
+        | some c => simp [Staged.afterBody, h1] at he
+      | some c =>
+        simp only [hc] at he
+        split at he
+        · rename_i h1; cases h2 : sc.add r <;> simp [h2] at h1 he
+        · cases he
+
+/-- **A failing `Commit` delivers to nobody**: whatever the earlier stages reported (also the per-recipient
+successes of `BodyNonAtomic`), the attempt has no delivered recipient … -/
+theorem C02_commit_failure_delivers_nobody (m : SMeta) (sc : Staged) (c : Cls) (hc : sc.commit = some c) :
+    delivered m (deliverErrs m.to sc) = [] := by
+  apply List.eq_nil_iff_forall_not_mem.mpr
+  intro r hr
+  have := (C02_delivered_only_if_committed m sc r hr).1
+  rw [hc] at this; cases this
+
+/-- … so the attempt step adds nothing to the delivered set, and every recipient of the attempt is reported /
+given up on by the classification loop or stays pending in the metadata written next (what the seeded change
+C02-12 breaks: the recipients were dropped from the spool without any of the three). -/
+theorem C02_commit_failure_keeps_recipients (P : Params) (s s' : St) (m : SMeta) (sc : Staged) (c : Cls)
+    (hpc : s.pc = .attempting m) (hc : sc.commit = some c)
+    (hs : step? P s (.outcome (deliverErrs m.to sc)) = some s') :
+    s'.g.dlv = s.g.dlv ∧
+    ∀ r, r ∈ m.to → r ∈ (attemptResult P m (deliverErrs m.to sc)).failedR ∨
+                    r ∈ (attemptResult P m (deliverErrs m.to sc)).newR := by
+  have hd := C02_commit_failure_delivers_nobody m sc c hc
+  constructor
+  · simp only [step?, hpc] at hs
+    split at hs <;> (cases hs; simp [hd])
+  · intro r hr
+    rcases attempt_cover P m (deliverErrs m.to sc) r hr with h | h | h
+    · rw [hd] at h; cases h
+    · exact .inl h
+    · exact .inr h
+
+example : delivered ⟨[1, 2], [], false⟩ (deliverErrs [1, 2] ⟨fun _ => none, true, none, fun _ => none, some .temp⟩) = [] := by
+  decide
+example : delivered ⟨[1, 2], [], false⟩ (deliverErrs [1, 2] ⟨fun _ => none, true, none, fun r => if r = 2 then some .perm else none, none⟩) = [1] := by
+  decide
+
+/-- **A transient fault in the start-up scan skips the entry and KEEPS it**: files and history are untouched,
+nothing is scheduled in this run of the process. -/
+theorem C02_scan_fault_entry_kept (P : Params) (s s1 : St) (w : FaultAt)
+    (hs : step? P s (.scanFault w) = some s1) : s1.disk = s.disk ∧ s1.g = s.g ∧ s1.pc = .fin := by
+  have h := (step_scanFault hs).2.2; subst h; exact ⟨rfl, rfl, rfl⟩
+
+/-- The same for a transient fault inside `openMessage`. -/
+theorem C02_open_fault_entry_kept (P : Params) (s s1 : St) (w : FaultAt)
+    (hs : step? P s (.openFault w) = some s1) : s1.disk = s.disk ∧ s1.g = s.g ∧ s1.pc = .fin := by
+  have h := (step_openFault hs).2.2; subst h; exact ⟨rfl, rfl, rfl⟩
+
+/-- The faulty start-up is invisible to the next one: stopping the process after it leaves exactly the state
+that stopping it before would have left. -/
+theorem C02_scan_fault_invisible (P : Params) (s s1 s2 : St) (w : FaultAt) (keep : FKind → Nat)
+    (h1 : step? P s (.scanFault w) = some s1) (h2 : step? P s1 (.crash keep) = some s2) :
+    step? P s (.crash keep) = some s2 := by
+  have h := (step_scanFault h1).2.2; subst h
+  simpa [step?] using h2
+
+/-- **A skipped entry is still pending after the next fault-free restart**: an accepted message (not quarantined)
+whose start-up scan met a transient fault — the process is stopped later, in any way — has every original
+recipient terminal or pending in the metadata that the next, fault-free, restart recovers, and that restart
+followed by the dispatch of the slot begins an attempt with exactly that metadata (what C02-11 breaks: the
+entry was renamed to `.meta_broken`). -/
+theorem C02_skipped_entry_still_pending (P : Params) (s s1 s2 : St) (w : FaultAt) (keep : FKind → Nat)
+    (h : Reach P s) (h1 : step? P s (.scanFault w) = some s1) (h2 : step? P s1 (.crash keep) = some s2)
+    (hacc : s.g.accepted = true) (hq : s.g.quarantined = false) (r : Addr) (hr : r ∈ s.g.orig) :
+    r ∈ s.g.term ∨ ∃ m, recoverMeta P s2.disk = some m ∧ r ∈ m.to ∧
+      ∃ t1 t2, step? P s2 .restart = some t1 ∧ step? P t1 .dispatch = some t2 ∧ t2.pc = .attempting m := by
+  have hr1 : Reach P s1 := .step _ h h1
+  have hr2 : Reach P s2 := .step _ hr1 h2
+  obtain ⟨hd, hg, _⟩ := C02_scan_fault_entry_kept P s s1 w h1
+  have hg2 : s2.g = s.g ∧ s2.pc = .down := by
+    simp [step?] at h2; subst h2; exact ⟨hg, rfl⟩
+  rcases C02_accepted_survives P s2 hr2 (by rw [hg2.1]; exact hacc) (by rw [hg2.1]; exact hq) r (by rw [hg2.1]; exact hr) with ht | ⟨m, hm, hrm⟩
+  · left; rw [hg2.1] at ht; exact ht
+  · right
+    obtain ⟨t1, t2, ha, hb, hc, _⟩ := C02_recovery_attempts P s2 m hg2.2 hm
+    exact ⟨m, hm, hrm, t1, t2, ha, hb, hc⟩
 
 end MaddyVerif.C02
